@@ -126,7 +126,7 @@ func (r *Run) pick(cur *Thread, curRunnable bool) *Thread {
 	}
 	// concurrency mode: only threads participating in Par (and helper threads they spawned) are
 	// scheduled freely; order the candidates deterministically.
-	if curRunnable && cur.enabled() && r.E.PreemptBound >= 0 && r.preempts >= r.E.PreemptBound {
+	if curRunnable && cur.enabled() && r.bound() >= 0 && r.preempts >= r.bound() {
 		return cur
 	}
 	i := r.Choice(len(en))
@@ -136,6 +136,14 @@ func (r *Run) pick(cur *Thread, curRunnable bool) *Thread {
 		r.preempts++
 	}
 	return t
+}
+
+// bound is the pre-emption bound in force: the harness's own (vrt.PreemptBound) or the property's.
+func (r *Run) bound() int {
+	if r.preemptSet {
+		return r.preemptBound
+	}
+	return r.E.PreemptBound
 }
 
 // lockYield: acquiring a mutex is a visible operation unless the mutex is thread-local (the harness
